@@ -174,5 +174,7 @@ class Monitors:
                     self.fail("C08:healthy-not-on-disk", f"copy of {rel} on {node.name} recorded healthy but absent from disk ({where})")
                 elif f.size_b is not None and p.stat().st_size != f.size_b:
                     self.fail("C08:healthy-wrong-size", f"copy of {rel} on {node.name} recorded healthy, size on disk {p.stat().st_size} != registered {f.size_b} ({where})")
+                elif f.md5sum is not None and p.stat().st_size <= 65536 and hashlib.md5(p.read_bytes()).hexdigest() != f.md5sum.lower():
+                    self.fail("C08:healthy-wrong-bytes", f"copy of {rel} on {node.name} recorded healthy, but the bytes on disk do not have the registered digest ({where})")
             elif c.has_file == "N" and c.id in sim.removed_by_daemon and p.exists():
                 self.fail("C08:removed-still-on-disk", f"copy of {rel} on {node.name} recorded removed by the daemon but still on disk ({where})")
